@@ -188,6 +188,7 @@ RULES = [
     ("C18-R3", "visited test before listing, canonical key, inode set", r3),
     ("C18-R4", "no depth underflow for targets above the root; follow flag plumbing", r4),
     ("C01-R5", "without the option no descent through a link [shared with C01]", lambda ctx: __import__("c01").r5(ctx)),
+    ("C01-R1", "depth window on the level grid, including directories shallower than the root (reached through links) [shared with C01]", lambda ctx: __import__("c01").r1(ctx)),
 ]
 
 EXPLANATION = (
